@@ -5,6 +5,8 @@
 package netkit
 
 import (
+	"bytes"
+	"sync/atomic"
 	"encoding/binary"
 	"errors"
 	"fmt"
@@ -21,6 +23,21 @@ import (
 	"verif/harness/probe"
 	"verif/harness/ref"
 )
+
+// DropLog is a sink for the library's log output which counts the messages it
+// reports as dropped because the queue of their consumer was full
+// ("message dropped: consumer blocked", endPoint.dispatch).
+type DropLog struct{ n int64 }
+
+func (d *DropLog) Write(p []byte) (int, error) {
+	if bytes.Contains(p, []byte("consumer blocked")) {
+		atomic.AddInt64(&d.n, 1)
+	}
+	return len(p), nil
+}
+
+// Count returns the number of dropped messages reported so far.
+func (d *DropLog) Count() int64 { return atomic.LoadInt64(&d.n) }
 
 // Message types (documented values).
 const (
